@@ -26,7 +26,7 @@ add('C02', 'E-RUN+E-CHW+gen (+E-RACE in thorough)', 'exploration',
 
 add('C05', 'E-RUN+E-CHW+gen', 'exploration',
     'Robustness fuzzing of the real writer in crash-isolated child processes: every ingest route × content type × mutation operator (byte level, JSON structure, protobuf with absent sub-messages, boundary ids, query parameters, lying/truncated encodings, headers, random bytes). Monitors: process death (attributed through a write-ahead log to the request in flight), unanswered request with goroutine dumps showing the request stuck in qryn frames, connection closed without response, a well-formed canary push after every hostile request (acknowledged, rows intact), rectangular shared batches, goroutine census before/after.',
-    'Trusted: fake always-succeeding insert client; the wedged verdict needs a client timeout of 15 s AND two identical goroutine dumps 2 s apart (a timeout alone is inconclusive). Inputs are sampled, not enumerated.',
+    'Trusted: fake always-succeeding insert client (every hundredth case also pushes a multi-portion body at full speed beside another client; every 400th one while all INSERTs fail); the wedged verdict needs a client timeout of 15 s AND two identical goroutine dumps 2 s apart (a timeout alone is inconclusive). Inputs are sampled, not enumerated.',
     'runtime monitoring: crash-isolated fuzzing with liveness, canary and goroutine-census monitors', 'DESIGN §3 C05')
 
 add('C04', 'E-RUN+E-CHW+gen', 'exploration',
@@ -48,7 +48,7 @@ add('C06', 'E-RUN+gen+E-SQLDRV', 'exploration',
     'runtime monitoring: differential round trip through the real write and read paths vs spans known by construction', 'DESIGN §3 C06')
 add('C20', 'real binary + E-CHTCP + hook', 'exploration',
     'The real qryn binary (built from the working tree with -tags verif) is started in writer and reader mode with basic auth configured, CORS on and off, against a fake native-protocol ClickHouse server; the real route table is dumped by the hook and every route x method is hit with a matrix of Authorization headers x Accept-Encoding x Origin. Oracle: without exactly the right credentials the answer is 401 (400 for a malformed header), never a handler body, and no query reaches the fake database; with the right credentials the request reaches the handler (database interactions observed).',
-    'Trusted: the fake ClickHouse wire server as the observer of database interactions; route table = what mux.Walk reports for the router main registered. Exhaustive over the dumped route table x the header list of the tier.',
+    'Trusted: the fake ClickHouse wire server as the observer of database interactions; route table = what mux.Walk reports for the router main registered; listening sockets of the process = what /proc/<pid>/fd and /proc/<pid>/net/tcp* show (every listener besides the application port is probed with the dumped routes without credentials; port-valued setting names found in the sources besides PORT / CLICKHOUSE_PORT get an instance of their own). Exhaustive over the dumped route table x the header list of the tier.',
     'runtime monitoring of the real binary: route walk x header matrix with a database-interaction monitor', 'DESIGN §3 C20, §5')
 
 add('C07', 'E-RUN+E-SQLDRV+E-CHSQL+E-REF(logq)', 'translation_validation',
@@ -58,7 +58,7 @@ add('C07', 'E-RUN+E-SQLDRV+E-CHSQL+E-REF(logq)', 'translation_validation',
 
 add('C16', 'E-RUN+gen+E-CHSQL+E-SQLDRV', 'exploration',
     'Generated pprof profiles (1-4 sample types, 0-200 samples, depth up to 600 crossing the 511-level clamp, direct/indirect recursion, shared frames, locations without line info, inlined lines) go through both exported profile parsers; oracle A checks the stored tree per sample type (total = self + children, roots = sum of sample values, values_agg, function ids resolve, multiset of (name path, self, total) equals an independent fold of the abstract case); oracle B merges multisets of 1-6 stored trees in all permutations / shuffled row orders through the reader tree merge and layout code, fed both directly and through the real PlanMergeTraces SQL executed by E-CHSQL and the real ProfService over the scripted driver, and checks sums, order independence and flame-graph nesting (bars ordered, disjoint, inside their parent span, self <= total).',
-    'Trusted: the abstract profile generator and its fold, E-CHSQL for the SQL aggregation step (disagreement between the SQL feed and the direct fold is reported as undecided, not as a violation). Levels beyond the 511 clamp are judged on conservation only.',
+    'Trusted: the abstract profile generator and its fold, E-CHSQL for the SQL aggregation step (disagreement between the SQL feed and the direct fold is reported as undecided, not as a violation). The sample types of one profile type are also requested at the same time through the real service (statements held at the scripted database until all have arrived): each caller must get what the same request returns on its own. Levels beyond the 511 clamp are judged on conservation only.',
     'runtime monitoring: conservation and nesting invariants checked on the outputs of the real parsers, merge and layout code', 'DESIGN §3 C16')
 
 add('C08', 'E-RUN+E-SQLDRV+E-CHSQL+E-REF(logq)', 'translation_validation',
@@ -80,7 +80,7 @@ add('C11', 'E-RUN+E-SQLDRV+E-CHSQL+E-REF(reftraceql)', 'translation_validation',
     'runtime monitoring: translation validation by executing the recorded SQL against a reference interpreter and comparing with a direct evaluator', 'DESIGN §3 C11')
 add('C12', 'E-RUN+E-SQLDRV+E-RDCAT+E-RACE', 'exploration',
     'Crash-isolated robustness fuzzing of all 35 read routes of the real reader (router, controllers, services, planners, post-processors; Loki incl. tail over a websocket, Prometheus, Tempo v1/v2, Pyroscope) on the scripted database/sql driver: grammar-generated, mutated and random-byte query texts for LogQL/PromQL/TraceQL/Pyroscope selectors, boundary values for start/end/step/limit/direction/time (zero, negative, reversed, huge, NaN/Inf, fractions, RFC3339), result sets of every statement kind in well-formed and nine hostile shapes (wrong Go types, short ids, bad payloads, fingerprint 0, inconsistent arrays), database errors at open and at row k, cancelled contexts, clients that stop reading early or mid-response. Monitors per request: process death (child process per lane, address space capped), an HTTP answer within the watchdog (a request is wedged only if none of its goroutines is running or runnable in two dumps 2 s apart), connection closed without response, driver.Rows left open, goroutine census and connection states after quiescence. A child ends itself after a confirmed leak or wedge so that leaked work is never attributed to a later case.',
-    'Trusted: the scripted driver and its classification of the statements the reader issues, the goroutine census filter, the address-space cap (8 GiB; an out-of-memory death below 1 GiB blocks is undecided). Input classes are skipped after a confirmed wedge/leak or three deaths (counted). The race-detector subset is not run for C12: a -race binary cannot start under the address-space cap.',
+    'Trusted: the scripted driver and its classification of the statements the reader issues, the goroutine census filter, the address-space cap (8 GiB; an out-of-memory death on a block below 1 GiB is undecided unless the live heap grew by more than 3 GiB while the request was open). A request still computing at the client timeout is a violation only when its goroutine stays in the same frames and the live heap has grown by more than 1 GiB since it began and keeps rising over three samples; otherwise undecided. A concurrent lane (8 clients, Go-side pipelines with per-line template arguments + canonical requests of all families) observes process death, unanswered connections and leftovers; a death there is attributed to the lane, not to one request. Input classes are skipped after a confirmed wedge/leak or three deaths (counted). The race-detector subset is not run for C12: a -race binary cannot start under the address-space cap.',
     'runtime monitoring: crash-isolated fuzzing with response, goroutine-census, open-rows and connection-state monitors', 'DESIGN §3 C12')
 add('C15', 'E-RUN+E-SQLDRV+E-RDCAT', 'exploration',
     'Scripted result sets (any number of series, any distribution of rows over series and channel batches incl. empty batches, batch boundaries inside a series, 3000+ rows, fingerprint 0, label and line contents with control bytes / quotes / invalid UTF-8, floats from 1e-300 to 1e300, integral values, NaN-free) are fed through the real reader for every document-producing endpoint (Loki streams/matrix/vector for SQL and pipeline paths, labels, label values, series; Prometheus matrix/vector/scalar/labels/series; Tempo trace JSON, search, TraceQL, tags/values v1+v2). Oracle: the concatenated response chunks are decoded strictly as exactly one JSON document (no trailing data, no duplicate keys), validated against the documented shape of that endpoint, and compared with the scripted rows: exactly one object per stream/series, every row once, timestamps and values rendered without loss, strings equal after decoding.',
